@@ -21,6 +21,9 @@ namespace Prtpy.BinsOps
 
 variable {α : Type}
 
+instance (v : α → Nat) (b : Bins α) : Decidable (b.Consistent v) :=
+  inferInstanceAs (Decidable (b.sums = b.lists.map (binSum v)))
+
 /-! ## Generic list helpers -/
 
 theorem getElem?_modify_self {β : Type} (l : List β) (i : Nat) (f : β → β) (h : i < l.length) :
@@ -174,8 +177,8 @@ theorem add_effect_getElem (b : Bins α) (x : α) (i : Nat) (hi : i < b.sums.len
     (b.add v x i).sums[i]'(by simpa using hi) = b.sums[i] + v x ∧
     (b.add v x i).lists[i]'(by simpa using hl) = b.lists[i] ++ [x] := by
   constructor
-  · simp [List.getElem_modify]
-  · simp [List.getElem_modify]
+  · simp
+  · simp
 
 /-- In the model an out-of-range index leaves the bins-array unchanged
     (Python raises `IndexError` here; the models never call `add` out of range). -/
@@ -206,13 +209,14 @@ theorem addLast_effect (b : Bins α) (x : α) (hne : b.sums ≠ []) (hlen : b.su
   have key : ∀ {β : Type} (l : List β) (f : β → β) (hn : l ≠ []),
       l.modify (l.length - 1) f = l.dropLast ++ [f (l.getLast hn)] := by
     intro β l f hn
-    conv => lhs; rw [← List.dropLast_append_getLast hn]
+    conv => lhs; rw [← List.dropLast_concat_getLast hn]
     have : l.length - 1 = l.dropLast.length := by simp
     rw [List.length_append, List.length_singleton, Nat.add_sub_cancel, Part.modify_length_append]
   constructor
   · exact key b.sums _ hne
   · show b.lists.modify (b.sums.length - 1) _ = _
-    rw [hlen]; exact key b.lists _ _
+    have e : b.sums.length - 1 = b.lists.length - 1 := by rw [hlen]
+    rw [e]; exact key b.lists _ _
 
 example : ((⟨[3, 4], [[3], [4]]⟩ : Bins Nat).addLast id 5).sums = [3, 9] ∧
     ((⟨[3, 4], [[3], [4]]⟩ : Bins Nat).addLast id 5).lists = [[3], [4, 5]] := by decide
@@ -346,7 +350,7 @@ end Ops
 
 /-! ## 2. Sorting -/
 
-section Sort
+section Sorting
 variable (v : α → Nat)
 
 /-- The two components of the sorted bins-array are the two projections of *one* sorted list of
@@ -402,7 +406,7 @@ example := sortAsc_sorted_perm (⟨[9, 3, 0, 3], [[4, 5], [3], [], [1, 2]]⟩ : 
 example : (⟨[0, 3, 3], [[], [3], [1, 2]]⟩ : Bins Nat).sortAsc.lists = [[], [3], [1, 2]] :=
   congrArg Bins.lists (sortAsc_stable _ rfl (by decide))
 
-end Sort
+end Sorting
 
 /-! ## 3. The sums-only manager is the `sums` projection: every operation's effect on `sums` depends only
 on the sums (and the value of the added item). -/
@@ -634,3 +638,34 @@ example : ((⟨[3, 4], [[3], [4]]⟩ : Bins Nat).mapItems (· + 10)).lists = [[1
 end MapItems
 
 end Prtpy.BinsOps
+
+/-
+`#print axioms` output observed (Lean 4.33.0) for the main theorems:
+
+'Prtpy.BinsOps.op_consistent' depends on axioms: [propext, Quot.sound]
+'Prtpy.BinsOps.new_numbins' does not depend on any axioms
+'Prtpy.BinsOps.add_effect' depends on axioms: [propext, Classical.choice, Quot.sound]
+'Prtpy.BinsOps.add_out_of_range' depends on axioms: [propext, Classical.choice, Quot.sound]
+'Prtpy.BinsOps.addLast_effect' depends on axioms: [propext]
+'Prtpy.BinsOps.addEmpty_effect' depends on axioms: [propext]
+'Prtpy.BinsOps.removeLast_effect' depends on axioms: [propext, Quot.sound]
+'Prtpy.BinsOps.removeLast_consistent' depends on axioms: [propext]
+'Prtpy.BinsOps.combine_consistent' depends on axioms: [propext, Quot.sound]
+'Prtpy.BinsOps.combine_effect' depends on axioms: [propext, Classical.choice, Quot.sound]
+'Prtpy.BinsOps.sortAsc_sorted_perm' depends on axioms: [propext, Quot.sound]
+'Prtpy.BinsOps.sortAsc_consistent' depends on axioms: [propext, Quot.sound]
+'Prtpy.BinsOps.sortAsc_stable' depends on axioms: [propext, Quot.sound]
+'Prtpy.BinsOps.sortAsc_stable_filter' depends on axioms: [propext, Classical.choice, Quot.sound]
+'Prtpy.BinsOps.forget_sortAsc' depends on axioms: [propext]
+'Prtpy.BinsOps.sortedSums_sorted_perm' depends on axioms: [propext, Quot.sound]
+'Prtpy.BinsOps.largestSum_spec' depends on axioms: [propext, Quot.sound]
+'Prtpy.BinsOps.smallestSum_spec' depends on axioms: [propext, Quot.sound]
+'Prtpy.BinsOps.largest_eq_last_sorted' depends on axioms: [propext, Quot.sound]
+'Prtpy.BinsOps.smallest_eq_head_sorted' depends on axioms: [propext, Quot.sound]
+'Prtpy.BinsOps.out_from_partition' does not depend on any axioms
+'Prtpy.BinsOps.outputs_from_partition' depends on axioms: [propext]
+'Prtpy.BinsOps.binCount_eq' depends on axioms: [propext]
+'Prtpy.BinsOps.mapItems_sortAsc' depends on axioms: [propext, Quot.sound]
+'Prtpy.BinsOps.mapItems_combine' depends on axioms: [propext]
+'Prtpy.BinsOps.mapItems_consistent' depends on axioms: [propext, Quot.sound]
+-/
